@@ -56,7 +56,8 @@ for sid in sorted(os.listdir(sd)) if os.path.isdir(sd) else []:
     out.append('| %s | %s | %s | %s | %s |' % (sid, m['property'], 'yes' if m.get('confirmed') else 'NO', ', '.join(sorted(caught)) or ('**missed**' + (' (exit 2 in %s)' % ', '.join(sorted(m.get('analysis_error') or {})) if m.get('analysis_error') else '')), first))
 out.append('')
 out.append('Seeds with suffix a/b were produced before the strengthening rounds (batches 1-5; the rules were extended until they were reported); suffix c/d is the fresh batch 6 '
-           '(after round 3), e/f batch 7 (after round 4), g/h batch 8 (after round 4, for the properties that had only a/b seeds).  Each fresh batch was an unbiased sample of '
+           '(after round 3), e/f batch 7 (after round 4), g/h batch 8 (after round 4, for the properties that had only a/b seeds), i/j batch 9 (the twelve properties of batch 6 again), '
+           'k/l batch 10 (a cross-section after round 7).  Each fresh batch was an unbiased sample of '
            'how the rules generalised when it was produced (section 8.5 has the rates at that moment); the following round used it as input, so the table shows the state after that round.')
 out.append('')
 out.append('### A.4 Regression mutants: the reverse of every `fix:` commit (tools/regress.py)\n')
